@@ -42,9 +42,15 @@ var ibcModules = []struct {
 }
 
 type (
-	genExporter  interface{ ExportGenesis(sdk.Context, codec.JSONCodec) json.RawMessage }
-	genInit      interface{ InitGenesis(sdk.Context, codec.JSONCodec, json.RawMessage) }
-	genInitABCI  interface{ InitGenesis(sdk.Context, codec.JSONCodec, json.RawMessage) []abci.ValidatorUpdate }
+	genExporter interface {
+		ExportGenesis(sdk.Context, codec.JSONCodec) json.RawMessage
+	}
+	genInit interface {
+		InitGenesis(sdk.Context, codec.JSONCodec, json.RawMessage)
+	}
+	genInitABCI interface {
+		InitGenesis(sdk.Context, codec.JSONCodec, json.RawMessage) []abci.ValidatorUpdate
+	}
 	genValidator interface {
 		ValidateGenesis(codec.JSONCodec, sdkclient.TxEncodingConfig, json.RawMessage) error
 	}
@@ -441,6 +447,10 @@ func (rt *roundTripper) futuresCheck(s *gen, w, imp *ksim.World) (int, int) {
 			n++
 			if a.res == "OK" {
 				nok++
+			}
+			// a relay that is rejected in the original state only has to stay rejected (the error code may differ)
+			if strings.HasPrefix(a.res, "ERR") && strings.HasPrefix(b.res, "ERR") {
+				a.res, b.res = "ERR", "ERR"
 			}
 			if a != b {
 				what := "result"
